@@ -1,14 +1,15 @@
 //! C07 — the worklist fixpoint solver computes the least solution for any order.
 //!
 //! Shape E. Part 1: every edge-labelled multigraph of the stated slices
-//! (nodes <= 4, self-loops, <= 2 parallel edges, edge bound, transfer-function
-//! alphabet) x every start configuration x every node-priority permutation
+//! (nodes <= 5, self-loops, <= 2 parallel edges, edge bound, transfer-function
+//! alphabet; the exact slices are listed in the evidence under `bounds`) x every start configuration x every node-priority permutation
 //! (plus `Computation::new`'s own order) x {compute(), compute_with_max_steps(1..=6)}
 //! is run through the real `fixpoint::Computation` and judged against a naive
 //! Kleene iteration. Part 2: real CFGs of a finite space of tiny IR programs:
 //! `create_bottom_up_worklist` / `create_top_down_worklist` must be
-//! permutations of the node indices, and the solver run on the real CFG under
-//! those orders must reach the same least fixpoint.
+//! permutations of the node indices (forward CFG and the reversed CFG the
+//! backward analyses use), and the solver run on the real CFG under those
+//! orders must reach the same least fixpoint.
 
 #[path = "../shared/c07_cfg.rs"]
 mod c07_cfg;
@@ -580,7 +581,7 @@ fn main() {
         "synthetic_slices": slices,
         "orders": "Computation::new's own order + every permutation passed to from_node_priority_list",
         "modes": "compute(), compute_with_max_steps(b) for b = 1..=6",
-        "start_configs": "one start node {0}; two start nodes {0},{1}; default Some(empty) alone; default Some(empty) + one start node {0} (every node position for n<=3, node 0 / nodes 0,1 for n=4)",
+        "start_configs": "one start node {0}; two start nodes {0},{1}; default Some(empty) alone; default Some(empty) + one start node {0} (every node position for n<=3, node 0 / nodes 0,1 for n>=4)",
         "transfer_budget": "1000 + 50*|E| update_edge calls per run",
         "real_cfgs": cfgs,
     }));
@@ -589,7 +590,7 @@ fn main() {
     ctx.assume("'processed at most b times' is judged per edge: one processing of a node evaluates each out-edge once, so no edge may be transferred more than b times within one compute_with_max_steps call; the sum over a node's out-edges may be larger");
     ctx.assume("unfinished bounded runs: only the step bound is demanded; 'worklist contains every node with a violated out-edge' and 'intermediate result below the lfp' are reported as info_* statistics only");
     ctx.assume("priority lists passed to from_node_priority_list are permutations of all node indices (what create_*_worklist is checked to return in part 2)");
-    ctx.assume("n=4 start positions are fixed to node 0 / nodes (0,1): the graph slice is closed under node renaming and all priority permutations are enumerated, so only edge-insertion-order variants are lost");
+    ctx.assume("n>=4: start positions are fixed to node 0 / nodes (0,1): the graph slice is closed under node renaming and all priority permutations are enumerated, so only edge-insertion-order variants are lost");
     ctx.finish(
         "one case = (edge-labelled multigraph, start configuration, priority order, mode); every case of every slice listed under bounds.synthetic_slices is run through the real Computation and compared with a naive Kleene iteration (compute: values == lfp and termination within the transfer budget; bounded: no edge transferred more than b times, stabilized => closed and == lfp). Part 2: every program of bounds.real_cfgs: create_bottom_up_worklist/create_top_down_worklist are permutations of the CFG's node indices, and the solver on the real CFG (transfer function by edge kind) under new/bottom-up/top-down/reverse orders reaches the Kleene lfp. non-trivial = the least fixpoint differs from the initial assignment (something must be propagated)",
         true,
